@@ -179,3 +179,11 @@ def c01_pool_gate(ctx, v):
                 v.fail("a transaction is pooled although Transaction::validate(.., validate_against_utxo=true) did not return true", L.trace_text(o))
     v.covers_total += 1
     v.covers_sat += 1 if added else 0
+
+
+def c01_generate_commits_every_atr(ctx, v):
+    """a privileged (ATR-typed) transaction skips the signature and ownership checks of
+    Transaction::validate; what keeps an unsolicited one out of an accepted block is the
+    rebroadcast commitment — every ATR-typed transaction must be folded into it (see C13)."""
+    from . import obl_c13
+    obl_c13.c13_generate_commits_every_atr(ctx, v)
